@@ -67,6 +67,9 @@ type Write struct {
 	// Abandon > 0: only the first Abandon tokens of the element are written (it
 	// is left open in mid-element); only on the last write of a program.
 	Abandon int `json:"abandon,omitempty"`
+	// StrayEnd: before the element the handler hands the encoder an end tag
+	// that matches nothing and ignores what the encoder says about it.
+	StrayEnd bool `json:"stray_end_tag_first,omitempty"`
 }
 
 // Program is the behaviour of the handler for one incoming element.
@@ -435,6 +438,9 @@ func genProgram(r *rand.Rand, streamNS string) Program {
 			w.XMLNS = pick(r, "first", "middle", "last")
 			w.Via = pick(r, "tokens", "copy", "decode")
 		}
+		if r.Intn(25) == 0 {
+			w.StrayEnd = true
+		}
 		p.Writes = append(p.Writes, w)
 	}
 	if len(p.Writes) > 0 && r.Intn(10) == 0 {
@@ -635,6 +641,8 @@ type runState struct {
 	cur      int             // index of the element being handled (-1 before the first)
 	mismatch bool            // dispatch did not follow the input order (C08's business): case not judged
 	writes   []writeRec
+	// stray end tags handed to the encoder by handlers, by what the encoder said
+	strayRefused, strayAccepted int
 	rets     []string // per element: what the program returned ("" = never ran)
 	nmark    int
 	byKey    bool   // collision cases: elements are recognised by (id, type), not by order
@@ -944,6 +952,13 @@ func (st *runState) exec(rw xmlstream.TokenReadEncoder) error {
 		toks, reply, ambig := st.build(w, reqID, reqFrom, m)
 		toks = st.withXMLNS(toks, w)
 		rec := writeRec{Marker: m, Kind: w.Kind, Stanza: idx, Reply: reply && reqID != "", Ambig: ambig}
+		if w.StrayEnd {
+			if err := rw.EncodeToken(xml.EndElement{Name: xml.Name{Local: "iq"}}); err != nil {
+				st.strayRefused++
+			} else {
+				st.strayAccepted++
+			}
+		}
 		switch w.Via {
 		case "copy":
 			_, rec.Err = xmlstream.Copy(rw, &sliceReader{t: toks})
@@ -1816,6 +1831,8 @@ func judge(c *core.Case, sc Scenario, o sess.Opts, st *runState, written []byte,
 		}
 	}
 	c.Count("handler_elements_written", len(st.writes))
+	c.Count("stray_end_tags_the_encoder_refused", st.strayRefused)
+	c.Count("stray_end_tags_the_encoder_accepted", st.strayAccepted)
 	for _, a := range st.appSent {
 		c.Count("app_sends", 1)
 		c.Count("app_send_"+a.payload, 1)
@@ -2017,7 +2034,7 @@ func Prop() *core.Prop {
 	return &core.Prop{
 		ID:    "C07",
 		Level: core.Exploration,
-		Rule:  "a case is one pre-loaded stream of 1-4 PRNG-built top-level elements (IQ of every type/id/from/to/payload shape, message, presence, others; client and server namespaces) served single-threaded by Session.Serve with one interpreted handler program per element (reads none/part/all; writes 0-3 marked elements out of 15 kinds through EncodeToken, xmlstream.Copy or Encode; returns nil, an error, a stream error, a stanza.Error plain or wrapped, io.EOF, or an error wrapping io.EOF / io.ErrUnexpectedEOF / io.ErrClosedPipe / its own error); one stream in 20 is served with Serve(nil); one session in 8 is negotiated with the WebSocket subprotocol through websocket.NewSession (frames, stanzas declare jabber:client, the peer ends with a close frame), directly, behind mux.ServeMux with the program registered for the payload, and behind it with nothing registered. The wire is re-parsed independently; unmarked top-level elements are the library's additions and are attributed to requests by id. One case in 200 is a concurrent id-collision scenario instead: Serve on its own goroutine, a requester goroutine with a pending SendIQ/SendIQElement/UnmarshalIQ/SendMessage/SendPresence of id X, the peer sends a get/set IQ with the same id X and a sentinel ping, waits for the ping's reply, then sends the real response and the closing tag; the usual reply rule is applied to the colliding request, which must also reach the handler, and the requester must get the response and not the request. One case in 200 serves 3-4 sessions at once (150 unanswered requests each), every other time through ONE mux.ServeMux value whose IQ handler answers four requests in ten itself after yielding until a handler call of another session has begun: every request is answered once, on its own session, with its own id and addressee, by the handler exactly when the handler wrote a reply. Distinct = distinct (mode, s2s, stanza class, payload present, written kinds, read class, return, additions, outcome).",
+		Rule:  "a case is one pre-loaded stream of 1-4 PRNG-built top-level elements (IQ of every type/id/from/to/payload shape, message, presence, others; client and server namespaces) served single-threaded by Session.Serve with one interpreted handler program per element (reads none/part/all; writes 0-3 marked elements out of 15 kinds through EncodeToken, xmlstream.Copy or Encode, one write in 25 preceded by an end tag that matches nothing, whose refusal the handler ignores; returns nil, an error, a stream error, a stanza.Error plain or wrapped, io.EOF, or an error wrapping io.EOF / io.ErrUnexpectedEOF / io.ErrClosedPipe / its own error); one stream in 20 is served with Serve(nil); one session in 8 is negotiated with the WebSocket subprotocol through websocket.NewSession (frames, stanzas declare jabber:client, the peer ends with a close frame), directly, behind mux.ServeMux with the program registered for the payload, and behind it with nothing registered. The wire is re-parsed independently; unmarked top-level elements are the library's additions and are attributed to requests by id. One case in 200 is a concurrent id-collision scenario instead: Serve on its own goroutine, a requester goroutine with a pending SendIQ/SendIQElement/UnmarshalIQ/SendMessage/SendPresence of id X, the peer sends a get/set IQ with the same id X and a sentinel ping, waits for the ping's reply, then sends the real response and the closing tag; the usual reply rule is applied to the colliding request, which must also reach the handler, and the requester must get the response and not the request. One case in 200 serves 3-4 sessions at once (150 unanswered requests each), every other time through ONE mux.ServeMux value whose IQ handler answers four requests in ten itself after yielding until a handler call of another session has begun: every request is answered once, on its own session, with its own id and addressee, by the handler exactly when the handler wrote a reply. Distinct = distinct (mode, s2s, stanza class, payload present, written kinds, read class, return, additions, outcome).",
 		Assumptions: []string{
 			"the exception 'unless the stream itself is terminated with a stream error' applies to a request during whose handling Serve ended with an error only when the stream error element is on the wire before the closing tag; on this tree it never is (sendError does not flush it), which is the known finding reply:missing:<mode>:stream-error-not-on-wire",
 			"IQs without id or with an empty id, with a type outside get/set/result/error, or named iq in the other stanza namespace are unconstrained",
@@ -2042,7 +2059,7 @@ func Prop() *core.Prop {
 			"conc_stalled_reply_write_was_blocked",
 			"session_websocket", "ws_answered_by_library", "mode_serve-nil", "serve_nil_answered_by_library",
 			"handler_reply_with_xmlns_attr_first", "handler_reply_with_xmlns_attr_middle", "handler_reply_with_xmlns_attr_last", "handler_element_from_xml_decoder",
-			"multi_session_cases", "multi_session_requests_answered", "multi_session_cases_with_one_multiplexer", "multi_session_handler_calls_overlapping_another_sessions_call", "write_faults_reached", "app_sends", "app_tracked_requests_whose_transmission_failed", "app_send_unbalanced-eof", "app_send_reader-error", "app_send_balanced", "request_after_unbalanced_app_send",
+			"stray_end_tags_the_encoder_refused", "multi_session_cases", "multi_session_requests_answered", "multi_session_cases_with_one_multiplexer", "multi_session_handler_calls_overlapping_another_sessions_call", "write_faults_reached", "app_sends", "app_tracked_requests_whose_transmission_failed", "app_send_unbalanced-eof", "app_send_reader-error", "app_send_balanced", "request_after_unbalanced_app_send",
 			"handler_wrote_reply_without_id_to_request", "handler_wrote_reply-noid_bare", "handler_wrote_reply-noid_mux", "handler_wrote_reply-emptyid_bare", "handler_wrote_reply-emptyid_mux",
 			"handler_abandoned_reply", "handler_abandoned_other_element", "answered_by_handler_after_an_abandoned_element",
 			"incoming_qualified_attr_own_ns", "incoming_qualified_attr_foreign_ns",
